@@ -1,6 +1,9 @@
 import ApolloModel.Proofs.ParserLossless
 import ApolloModel.Proofs.Lexer2
 import ApolloModel.Proofs.ParserRecursion5
+import ApolloModel.Proofs.ParserTermination2
+import ApolloModel.Proofs.ParserRecursion9
+import ApolloModel.Proofs.ParserRecursion13
 /-
 C04 — Token and recursion limits are enforced exactly.
 
@@ -79,58 +82,176 @@ example : lex (some 2) ['{', 'a', '}'] = [.tok .lCurly ['{'], .tok .name ['a'], 
 
 `Parse.typeDepth src` is read off the lexer's token sequence alone (number of nested list types the text
 opens: its leading `[` tokens, ignored tokens allowed after each) — no parser run and no limit is involved
-in its definition.  The hypothesis `hterm` (the model did not abort) is exactly `C01.parse_type_terminates`;
-the two developments cannot be imported into one file because each declares a structure `Parse.TW`. -/
+in its definition.  The model never aborts on this entry point (`Parse.parse_type_terminates`, C01), so the
+theorems hold for every input and every limit without side condition. -/
 
 /-- `Parser::parse_type`, recursion limit `r`, no token limit: a recursion-limit error is reported if and
     only if the nesting depth of the input exceeds `r`. -/
-theorem rec_limit_iff_depth (r : Nat) (src : Parse.Str) (hterm : ∀ w, (parse .type none r src).outcome ≠ .abort w) :
+theorem rec_limit_iff_depth (r : Nat) (src : Parse.Str) :
     (∃ e, e ∈ (parse .type none r src).errors ∧ e.kind = .limit) ↔ Parse.typeDepth src > r :=
-  (Parse.parseType_rec_limit r src hterm).1
+  (Parse.parseType_rec_limit r src (fun w => Parse.parse_type_terminates none r src w)).1
 
 /-- …and the limit stops the descent at exactly level `r + 1`: the tracker's high-water mark is
     `min depth (r + 1)` — the limit is enforced neither earlier nor later. -/
-theorem rec_high_exact (r : Nat) (src : Parse.Str) (hterm : ∀ w, (parse .type none r src).outcome ≠ .abort w) :
+theorem rec_high_exact (r : Nat) (src : Parse.Str) :
     (parse .type none r src).recHigh = min (Parse.typeDepth src) (r + 1) :=
-  (Parse.parseType_rec_limit r src hterm).2
+  (Parse.parseType_rec_limit r src (fun w => Parse.parse_type_terminates none r src w)).2
 
 /-- Cross-run form: the depth is what any run that does not hit its limit reaches, so a run with limit `r`
     reports the limit error iff the unlimited run (any limit `R` that is not hit) went deeper than `r`. -/
 theorem rec_limit_iff_unlimited_high (r R : Nat) (src : Parse.Str)
-    (ht : ∀ w, (parse .type none r src).outcome ≠ .abort w) (hT : ∀ w, (parse .type none R src).outcome ≠ .abort w)
     (hfree : ¬ ∃ e, e ∈ (parse .type none R src).errors ∧ e.kind = .limit) :
     (parse .type none R src).recHigh = Parse.typeDepth src ∧
     ((∃ e, e ∈ (parse .type none r src).errors ∧ e.kind = .limit) ↔ (parse .type none R src).recHigh > r) := by
-  have hR := Parse.parseType_rec_limit R src hT
   have hle : Parse.typeDepth src ≤ R := by
     by_cases h : Parse.typeDepth src > R
-    · exact absurd (hR.1.mpr h) hfree
+    · exact absurd ((rec_limit_iff_depth R src).mpr h) hfree
     · omega
-  have hhigh : (parse .type none R src).recHigh = Parse.typeDepth src := by rw [hR.2]; omega
-  exact ⟨hhigh, by rw [hhigh]; exact rec_limit_iff_depth r src ht⟩
+  have hhigh : (parse .type none R src).recHigh = Parse.typeDepth src := by rw [rec_high_exact R src]; omega
+  exact ⟨hhigh, by rw [hhigh]; exact rec_limit_iff_depth r src⟩
 
 /-- The limit is monotone: what is accepted with limit `r` is accepted with every larger limit. -/
 theorem rec_limit_monotone (r r' : Nat) (hle : r ≤ r') (src : Parse.Str)
-    (ht : ∀ w, (parse .type none r src).outcome ≠ .abort w) (ht' : ∀ w, (parse .type none r' src).outcome ≠ .abort w)
     (h : ∃ e, e ∈ (parse .type none r' src).errors ∧ e.kind = .limit) :
     ∃ e, e ∈ (parse .type none r src).errors ∧ e.kind = .limit := by
-  have := (rec_limit_iff_depth r' src ht').mp h
-  exact (rec_limit_iff_depth r src ht).mpr (by omega)
+  have := (rec_limit_iff_depth r' src).mp h
+  exact (rec_limit_iff_depth r src).mpr (by omega)
 
-/-- The same statement for every entry point, with `depth` the maximal number of simultaneously open
-    guarded constructs (selection sets; list values; object-field values; list types) of the token
-    sequence.  NOT proved beyond the `type` entry point.  What is missing, in terms of the lemmas that exist
-    for `ty.rs` (Proofs/ParserRecursion1–4): (1) `QG` ("leaves high-water mark, limit errors and
-    `acceptErrors` alone") for the remaining primitives and loops of parser/mod.rs (`peek_while`,
-    `peek_while_kind`, `parse_separated_list`, `peekTokenN`, `err_and_pop`) and for every grammar function
-    without a guard; (2) a `depth` function on token sequences that follows value.rs / selection.rs
-    (sibling constructs: the maximum over the items of a list, the fields of an object, the selections of a
-    set, and over the definitions of a document), with the analogue of `lead_bracket` for each guarded
-    construct; (3) the analogue of `RecOut` for runs that visit several sibling constructs: after the first
-    limit hit `acceptErrors` is false and the later siblings still move the high-water mark only up to
-    `r + 1` (needs the invariant `recHigh ≤ recLimit + 1`, preserved by `withRec`). -/
+
+/-! ### The recursion limit across runs (growth): values (value.rs)
+
+Values have no entry point, so the statement is about a `value` run from a state.  Guarded in value.rs: every
+item of a list value and the value of every object field.  The depth is stated through the unlimited run
+(the property's own wording): two runs of the same `value` call from the same state, one with limit `r`,
+one with a limit `R ≥ r` that is never hit.  `Parse.GI s` = no token limit, "errors no longer accepted ⇒ a
+limit error is on record", "lexer finished ⇒ the current token is the EOF token" (all true of the initial
+state and kept by every function of parser/mod.rs and value.rs). -/
+
+/-- The limit stops the descent at exactly level `r + 1`: the limited run's high-water mark is
+    `min (unlimited high-water mark) (r + 1)`, for every value, every start state and every pair of limits
+    — siblings included (after the first hit the later items and fields never go beyond `r + 1`). -/
+theorem value_rec_high_exact (n : Nat) (c p : Bool) (s : PState) (r R : Nat) (sr sR : PState)
+    (hrR : r ≤ R) (hc : s.recCur ≤ r) (hh : s.recHigh ≤ r) (g : Parse.GI s)
+    (hr : (value n c p).run (Parse.setL r s) = .ok () sr) (hR : (value n c p).run (Parse.setL R s) = .ok () sR)
+    (hfree : sR.recHigh ≤ R) : sr.recHigh = min sR.recHigh (r + 1) :=
+  (Parse.value_cross n c p s r R sr sR hrR hc hh g hr hR hfree).1
+
+/-- A recursion-limit error is on record after the limited run iff the unlimited run went deeper than `r`
+    (when the unlimited run itself recorded no limit error). -/
+theorem value_rec_limit_iff_depth (n : Nat) (c p : Bool) (s : PState) (r R : Nat) (sr sR : PState)
+    (hrR : r ≤ R) (hc : s.recCur ≤ r) (hh : s.recHigh ≤ r) (g : Parse.GI s)
+    (hr : (value n c p).run (Parse.setL r s) = .ok () sr) (hR : (value n c p).run (Parse.setL R s) = .ok () sR)
+    (hfree : sR.recHigh ≤ R) (hclean : ¬ Parse.HasLim sR.errors) :
+    Parse.HasLim sr.errors ↔ sR.recHigh > r := by
+  have h := (Parse.value_cross n c p s r R sr sR hrR hc hh g hr hR hfree).2
+  constructor
+  · intro hl
+    rcases h.mp hl with h1 | h1
+    · exact h1
+    · exact absurd h1 hclean
+  · intro hgt
+    exact h.mpr (Or.inl hgt)
+
+/-- Below the limit the two runs are the same run: same tree, same errors, same token position. -/
+theorem value_same_run_below_limit (n : Nat) (c p : Bool) (s : PState) (r R : Nat) (sr sR : PState)
+    (hrR : r ≤ R) (hc : s.recCur ≤ r) (hh : s.recHigh ≤ r) (g : Parse.GI s)
+    (hr : (value n c p).run (Parse.setL r s) = .ok () sr) (hR : (value n c p).run (Parse.setL R s) = .ok () sR)
+    (hfree : sR.recHigh ≤ R) (hle : sR.recHigh ≤ r) : sr = Parse.setL r sR := by
+  rcases (Parse.xAll n).valueX c p s r R () () sr sR hrR hc hh g trivial hr hR hfree with ⟨t, e1, e2, _, _, _, _⟩ | ⟨_, _, d3⟩
+  · subst e1 e2; rfl
+  · omega
+
+/-- Whatever the input, no value run moves the high-water mark beyond `limit + 1`, and it only adds errors. -/
+theorem value_high_bounded (n : Nat) (c p : Bool) (s s' : PState) (hc : s.recCur ≤ s.recLimit)
+    (h : (value n c p).run s = .ok () s') :
+    s.recHigh ≤ s'.recHigh ∧ s'.recHigh ≤ max s.recHigh (s.recLimit + 1) := by
+  have b := (Parse.xAll n).valueB c p s () s' hc h
+  exact ⟨b.lo, b.hi⟩
+
+/-- high-water mark and error kinds of a `value` run on a source text (for the examples) -/
+def valueRun (r : Nat) (src : String) : Option (Nat × List EKind) :=
+  match (value 60 false false).run (initState src.toList none r) with
+  | .ok _ s => some (s.recHigh, s.errors.map (·.kind))
+  | _ => none
+
+-- `[[1] [2 [3]] {a: [4]}]` nests three guarded constructs; limits 10, 2 and 1 (kernel-evaluated)
+example : valueRun 10 "[[1] [2 [3]] {a: [4]}]" = some (3, []) := by decide +kernel
+example : valueRun 2 "[[1] [2 [3]] {a: [4]}]" = some (3, [.limit]) := by decide +kernel
+example : valueRun 1 "[[1] [2 [3]] {a: [4]}]" = some (2, [.limit]) := by decide +kernel
+
+/-! ### The recursion limit across runs (growth): selection sets and `Parser::parse_selection_set`
+
+Guarded: the body of every selection set (right after its `{`), the selections handed to `field_set` without
+braces, and — through arguments and directives — every list item and object-field value.  Same two-run form
+as for values; for the entry point the model's termination (`parse_selection_set_terminates`) removes every
+side condition but "the larger limit is not hit". -/
+
+/-- selection.rs: a `selection_set` run with limit `r` against the same run with a limit `R ≥ r` that is
+    never hit — the limited high-water mark is `min (unlimited high-water mark) (r + 1)`. -/
+theorem selection_set_rec_high_exact (n : Nat) (s : PState) (r R : Nat) (sr sR : PState)
+    (hrR : r ≤ R) (hc : s.recCur ≤ r) (hh : s.recHigh ≤ r) (g : Parse.GI s)
+    (hr : (selectionSet n).run (Parse.setL r s) = .ok () sr) (hR : (selectionSet n).run (Parse.setL R s) = .ok () sR)
+    (hfree : sR.recHigh ≤ R) :
+    sr.recHigh = min sR.recHigh (r + 1) ∧ (Parse.HasLim sr.errors ↔ (sR.recHigh > r ∨ Parse.HasLim sR.errors)) := by
+  rcases (Parse.xSel n).selSet.x s r R () () sr sR hrR hc hh g trivial hr hR hfree with ⟨t, e1, e2, _, th, _, _⟩ | ⟨d1, d2, d3⟩
+  · subst e1 e2
+    refine ⟨?_, ?_⟩
+    · show t.recHigh = min t.recHigh (r + 1)
+      omega
+    · show Parse.HasLim t.errors ↔ (t.recHigh > r ∨ Parse.HasLim t.errors)
+      constructor
+      · exact Or.inr
+      · rintro (h | h)
+        · omega
+        · exact h
+  · exact ⟨by omega, ⟨fun _ => Or.inl (by omega), fun _ => d1⟩⟩
+
+/-- `Parser::parse_selection_set` with recursion limit `r` (no token limit), against the parse of the same
+    text with any limit `R ≥ r` that is not hit: the tracker stops at exactly `min depth (r + 1)` where the
+    depth is the high-water mark of the unlimited parse. -/
+theorem rec_high_exact_selection_set (r R : Nat) (src : Parse.Str) (hrR : r ≤ R)
+    (hfree : (parse .selectionSet none R src).recHigh ≤ R) :
+    (parse .selectionSet none r src).recHigh = min (parse .selectionSet none R src).recHigh (r + 1) :=
+  (Parse.parseSelectionSet_cross r R src hrR hfree).1
+
+/-- …and a recursion-limit error is reported iff the unlimited parse went deeper than `r`. -/
+theorem rec_limit_iff_depth_selection_set (r R : Nat) (src : Parse.Str) (hrR : r ≤ R)
+    (hfree : (parse .selectionSet none R src).recHigh ≤ R)
+    (hclean : ¬ ∃ e, e ∈ (parse .selectionSet none R src).errors ∧ e.kind = .limit) :
+    (∃ e, e ∈ (parse .selectionSet none r src).errors ∧ e.kind = .limit) ↔ (parse .selectionSet none R src).recHigh > r := by
+  have h := (Parse.parseSelectionSet_cross r R src hrR hfree).2
+  constructor
+  · intro hl
+    rcases h.mp hl with h1 | h1
+    · exact h1
+    · exact absurd h1 hclean
+  · intro hgt
+    exact h.mpr (Or.inl hgt)
+
+-- `{ a(x: [[1]]) { b { c } } }`: depth 3 (kernel-evaluated), limits 5, 2, 1
+example : (parse .selectionSet none 5 "{ a(x: [[1]]) { b { c } } }".toList).recHigh = 3 ∧
+    (parse .selectionSet none 5 "{ a(x: [[1]]) { b { c } } }".toList).errors = [] := by decide +kernel
+example : (parse .selectionSet none 2 "{ a(x: [[1]]) { b { c } } }".toList).recHigh = 3 ∧
+    (parse .selectionSet none 2 "{ a(x: [[1]]) { b { c } } }".toList).errors.map (·.kind) = [.limit] := by decide +kernel
+example : (parse .selectionSet none 1 "{ a(x: [[1]]) { b { c } } }".toList).recHigh = 2 ∧
+    (parse .selectionSet none 1 "{ a(x: [[1]]) { b { c } } }".toList).errors.map (·.kind) = [.limit] := by decide +kernel
+
+/-- The statement for every entry point, with `depth` the maximal number of simultaneously open guarded
+    constructs.  Proved above: the `type` entry point (token-level depth), value.rs and the `selectionSet`
+    entry point (depth = high-water mark of the unlimited run).  NOT proved: the `document` entry point.
+    What is missing there, given the calculus of Proofs/ParserRecursion6–12 (`Plain`, `XG`, `xg_bind`,
+    `xg_ite`, `xg_withNode`, `xg_peekWhileKind`, `xg_peekWhileFlagLoop`, `xc_withRec`, `post_bump`):
+    (1) `Plain` for `wrapIf` (checkpoint / `wrap_node`), `popDrop`, `peekData`, `parseSeparatedList`,
+    `assertRecZero`, `peekWhile` with a plain body; (2) `XG (tyParse n)` — the list-type guard follows
+    `bump(L_BRACK)`, so `post_bump` applies as in `xc_selSetBody` — hence `ty`, `defaultValue`,
+    `inputValueDefinition`, `variableDefinition(s)`, `argumentsDefinition`; (3) `XG` for every definition parser
+    of operation.rs, fragment.rs (`fragment_definition`), schema.rs, scalar/object/interface/union/enum/
+    input-object definitions and extensions, directive definitions (Model/Grammar.lean from `operationType` to
+    `document`, ≈ 30 functions, each a structural one-liner over (1)–(2) and `xSel`); (4) the loop of
+    `document()`; (5) abort-freedom of the model on the `document` entry point (`parse_document_terminates`
+    does not exist yet; C01 has `parse_terminates_partial`). -/
 def rec_limit_iff_depth_statement (depth : Entry → Parse.Str → Nat) : Prop :=
-  ∀ (e : Entry) (r : Nat) (src : Parse.Str), (∀ w, (parse e none r src).outcome ≠ .abort w) →
+  ∀ (e : Entry) (r : Nat) (src : Parse.Str),
     ((∃ x, x ∈ (parse e none r src).errors ∧ x.kind = .limit) ↔ depth e src > r) ∧
     (parse e none r src).recHigh = min (depth e src) (r + 1)
 
